@@ -27,6 +27,7 @@ import (
 	"sort"
 	"strings"
 	"syscall"
+	"time"
 
 	"cosmossdk.io/log"
 	sdkmath "cosmossdk.io/math"
@@ -170,6 +171,7 @@ type nopLogs struct{}
 func (nopLogs) Logger(context.Context) log.Logger { return log.NewNopLogger() }
 
 type checker struct {
+	deadline       time.Time
 	r              *report.Run
 	shard, nshards int
 	cdc            codec.Codec
@@ -178,6 +180,15 @@ type checker struct {
 }
 
 func (c *checker) count(k string) { c.cnt[k]++ }
+
+// late: the internal deadline has passed; the run ends with exhaustive=false.
+func (c *checker) late() bool {
+	if time.Now().After(c.deadline) {
+		c.r.Cap("internal deadline reached before the product was complete")
+		return true
+	}
+	return false
+}
 
 func snapshotOf(shares []*big.Int) (*valsettypes.Snapshot, *big.Int) {
 	t := new(big.Int)
@@ -352,7 +363,7 @@ func (c *checker) partA() {
 	vec := 0
 	for n := 1; n <= maxN; n++ {
 		forEachVector(n, len(shareAlpha), func(ix []int) {
-			if c.skipVector(ix) {
+			if c.skipVector(ix) || c.late() {
 				return
 			}
 			vec++
@@ -506,7 +517,7 @@ func (c *checker) partB() {
 	vec := 0
 	for n := 1; n <= 4; n++ {
 		forEachVector(n, len(shareAlpha), func(ix []int) {
-			if c.skipVector(ix) {
+			if c.skipVector(ix) || c.late() {
 				return
 			}
 			vec++
@@ -914,7 +925,7 @@ func (in *integ) partCEvidence() {
 				}
 				forEachVector(5, 3, func(assign []int) {
 					idx++
-					if idx%in.c.nshards != in.c.shard {
+					if idx%in.c.nshards != in.c.shard || in.c.late() {
 						return
 					}
 					cs := caseC{Part: "c", Kind: kind, Assign: append([]int(nil), assign...), Variant: variant, Reverse: rev}
@@ -1135,7 +1146,7 @@ func (in *integ) partCEstimates() {
 	for _, rev := range []bool{false, true} {
 		forEachVector(5, len(cEst), func(assign []int) {
 			idx++
-			if idx%in.c.nshards != in.c.shard {
+			if idx%in.c.nshards != in.c.shard || in.c.late() {
 				return
 			}
 			vs := make([]string, 5)
@@ -1170,7 +1181,7 @@ func run(r *report.Run, shard, nshards int, replayFile string) {
 	if r.Thorough() {
 		shareAlpha = append(shareAlpha, big.NewInt(7), pow2(64))
 	}
-	c := &checker{r: r, shard: shard, nshards: nshards, cdc: w.App.AppCodec(), fams: families(), cnt: map[string]float64{}}
+	c := &checker{deadline: r.Deadline(150*time.Second, 25*time.Minute), r: r, shard: shard, nshards: nshards, cdc: w.App.AppCodec(), fams: families(), cnt: map[string]float64{}}
 	r.Rule = "complete products, every element evaluated on the real function and compared with a math/big reference. " +
 		"(a) VerifyEvidence: n=1..4 snapshot validators x shares^n over {1,2,3,5,10^18,2^62,2^80} (thorough: + 7, 2^64; quick: for n=4 the vectors up to renaming of validators) x every assignment to {A,B,none} x a validator outside the snapshot {absent,A,B} x every order of the evidence slice x proof families (4 for n<=3, error-proof for n=4 in the quick tier). " +
 		"(b) VerifyGasEstimates: the same share vectors x every subset of submitting validators x outsider {absent,present} x every multiset of estimates of that size (1..4 quick, 1..5 thorough) over {1,2,3,2^32,2^63-1,2^63,2^63+1,2^64-2,2^64-1}, ascending and highest-first. " +
